@@ -6,10 +6,10 @@ CONSTANTS
   VP = 1
   SPAN = 2
   Base = 2
-  MaxH = 10
+  MaxH = 8
   MaxDet = 2
   StakeVecs <- SV2
-  Ages = {0, 1}
+  Ages = {0}
   MaxOps = 0
   GenHist = FALSE
 INIT Init
